@@ -316,6 +316,28 @@ impl SynCheck {
                 }
                 ctx.sample(json!({"mutant_of_base_program": &cur[..e], "operators": tags}));
             }
+            // the same damage at every place at once: the un-mutated program twice in a row, with ALL occurrences of one
+            // token spelling deleted - once per distinct spelling (a slip that needs two damaged constructs of the
+            // same kind in one file shows up here)
+            if i % 40 == 3 {
+                let base2 = base_program(&mut rng);
+                let twice = format!("{}\n{}", base2, base2);
+                let pcs = split_pieces(&twice);
+                let mut spellings: Vec<&str> = pcs.iter().filter(|p| p.2 != PieceKind::Space).map(|p| &twice[p.0..p.1]).collect();
+                spellings.sort();
+                spellings.dedup();
+                for sp in spellings.iter().take(120) {
+                    let mut m = String::with_capacity(twice.len());
+                    let mut last = 0;
+                    for p in pcs.iter().filter(|p| &twice[p.0..p.1] == *sp) {
+                        m.push_str(&twice[last..p.0]);
+                        last = p.1;
+                    }
+                    m.push_str(&twice[last..]);
+                    self.monitor(&m, ctx);
+                    ctx.feature("delete_all_of_one_spelling");
+                }
+            }
             // every token-boundary prefix of a few mutants
             if i % 50 == 0 {
                 for (s, _, _) in split_pieces(&cur) {
@@ -511,7 +533,7 @@ impl Check for SynCheck {
     }
     fn rule(&self) -> String {
         let common = format!(
-            "inputs: (a) EXHAUSTIVE all sequences of length<=3 over the {}-lexeme G-tok alphabet joined by \"\" and by \" \" (thorough: length<=4, also exhaustively); (b) the 39 vendored LLVM .td files, whole, at line-boundary prefixes and 4 KB windows cut at arbitrary characters; (c) 1-3 stacked random mutations (prefix, delete, insert, duplicate, transpose, replace, byte noise, non-ASCII insertion, CRLF/CR conversion, unterminated-construct splice, disabled-#ifdef wrap) of programs built from hand-written snippets covering every statement kind and from corpus chunks, plus every token-boundary prefix of a sample of them",
+            "inputs: (a) EXHAUSTIVE all sequences of length<=3 over the {}-lexeme G-tok alphabet joined by \"\" and by \" \" (thorough: length<=4, also exhaustively); (b) the 39 vendored LLVM .td files, whole, at line-boundary prefixes and 4 KB windows cut at arbitrary characters; (c) 1-3 stacked random mutations (prefix, delete, insert, duplicate, transpose, replace, byte noise, non-ASCII insertion, CRLF/CR conversion, unterminated-construct splice, disabled-#ifdef wrap) of programs built from hand-written snippets covering every statement kind and from corpus chunks, plus every token-boundary prefix of a sample of them, plus - for a sample of un-mutated programs written twice in a row - the deletion of ALL occurrences of one token spelling, once per distinct spelling",
             LEXEMES.len()
         );
         match self.mode {
@@ -520,7 +542,7 @@ impl Check for SynCheck {
         }
     }
     fn floors(&self, tier: Tier) -> Vec<(&'static str, u64)> {
-        let mut v = vec![("exhaustive_units", LEXEMES.len() as u64), ("corpus_files", 39), ("mut:pp-wrap", tier.pick(1000, 10000)), ("token_prefixes", 1000)];
+        let mut v = vec![("exhaustive_units", LEXEMES.len() as u64), ("corpus_files", 39), ("mut:pp-wrap", tier.pick(1000, 10000)), ("token_prefixes", 1000), ("delete_all_of_one_spelling", 1000)];
         match self.mode {
             Mode::Lossless => {
                 v.push(("skipped_region", 1000));
